@@ -124,7 +124,7 @@ pub fn check_src(c: &SrcCase) -> CheckResult {
             let (_, mut model2) = model_from_source(c.ty, &c.spec);
             compare_stream(info.name, "try_from_rng-stream", &mut *t, &mut model2, c.words)?;
             let _ = &mut tc;
-            Ok(CaseInfo::new(varied).class("no-failure").class_if(c.spec.words_differ, "source-word-methods-differ").class_if(need > info.seed_len.max(1) && info.engine == Engine::XorShift128, "xorshift-redraw"))
+            Ok(CaseInfo::new(varied).class("no-failure").class_if(c.spec.words_differ, "source-word-methods-differ").class_if(c.spec.call_block > 0, "source-hands-out-whole-blocks-per-call").class_if(need > info.seed_len.max(1) && info.engine == Engine::XorShift128, "xorshift-redraw"))
         }
         Some(j) => {
             let mut fsrc = FailSrc::new(c.spec.clone(), Some(j), c.token);
@@ -212,7 +212,7 @@ pub fn check_real_src(c: &RealSrcCase) -> CheckResult {
         }
     }
     // the child is the generator those bytes define
-    let src = SrcSpec { prefix: bytes, salt: 0, words_differ: false };
+    let src = SrcSpec { prefix: bytes, salt: 0, words_differ: false, call_block: 0 };
     let (_, mut model) = model_from_source(c.child, &src);
     compare_stream(info.name, &format!("{}-real-source", how), &mut *child, &mut model, 40)?;
     Ok(CaseInfo::new(true).class(format!("master:{}", c.master.ty().name())).class(how))
@@ -329,7 +329,16 @@ pub fn def(ctx: &Ctx) -> PropDef {
                     1 => Just(Some(full.saturating_sub(1))),
                 ];
                 (gens::src_spec(block.min(64).max(info.seed_len), zb), fail, any::<u64>(), prop_oneof![Just(300usize), 1usize..=40])
-                    .prop_map(move |(spec, fail_at, token, words)| SrcCase { ty, spec, fail_at, token, words })
+                    .prop_map(move |(mut spec, fail_at, token, words)| {
+                        // a third of the non-failing sources hand out whole 16-byte blocks per call
+                        // (the rest of a block is discarded, as the block generators discard the rest
+                        // of a word): one request of a seed's worth reads the same bytes as from the
+                        // plain source, the same amount requested in smaller pieces does not
+                        if fail_at.is_none() && ty.info().seed_len % 16 == 0 && token % 3 == 0 {
+                            spec.call_block = 16;
+                        }
+                        SrcCase { ty, spec, fail_at, token, words }
+                    })
                     .boxed()
             },
             check_src,
